@@ -181,9 +181,18 @@ def run(shard, rec, tier, seed):
     # the generator's roots are spelled absolutely, as '.', or relative to the working directory in turn
     spelling = ("absolute", "dot", "absolute", "relative")[ti % 4]
     rec.seen("root-spellings", spelling)
-    st, ok, err, out = stage.full(files, do_import=False, spelling=spelling, stale_output=(ti % 2 == 0))
+    # every third tree is generated into a directory that still holds the output of an earlier revision in which
+    # some types lived in other directories
+    earlier = None
+    if ti % 3 == 1:
+        earlier = collision_tree(seed, ti - 1000 + 1) if 1000 <= ti < 2000 else campaign.moved_revision(spec)
+        if earlier is not None and grammar.check(earlier):
+            earlier = None
+    st, ok, err, out = stage.full(files, do_import=False, spelling=spelling, stale_output=(ti % 2 == 0), earlier_output_files=S.render(earlier) if earlier is not None else None)
     if ti % 2 == 0:
         rec.count("trees-generated-over-stale-output")
+    if earlier is not None:
+        rec.count("trees-generated-over-the-output-of-an-earlier-revision")
     if not ok:
         rec.count("base-spec-rejected-by-generator")
         return
@@ -192,9 +201,9 @@ def run(shard, rec, tier, seed):
         decl_path = os.path.join(st.root, "decls.json")
         decls = declarations(spec)
         json.dump(decls, open(decl_path, "w"))
-        from vf.mon.ns_probe import static_modules
+        from vf.mon.ns_probe import static_modules, without_leftovers
 
-        mods = sorted(static_modules(os.path.join(pkg_parent, "eolib")))
+        mods = sorted(without_leftovers(static_modules(os.path.join(pkg_parent, "eolib")), decls))
         static = [m for m in mods if "._generated" not in m]
         generated = [m for m in mods if "._generated" in m]
         rng = random.Random("C20-%d-%d" % (seed, ti))
@@ -215,6 +224,7 @@ def run(shard, rec, tier, seed):
             rec.count("dotted-paths-walked", c["paths"])
             rec.count("static-public-names-checked", c["static_names"])
             rec.count("generated-classes-checked", c["generated_classes"])
+            rec.count("leftover-module-files-ignored", c.get("leftover_files_ignored", 0))
             rec.seen("first-imports", first if "._generated" not in first else "eolib.protocol._generated.*")
             for mech, text in res["problems"][:6]:
                 rec.violation(classify(mech, text, hazards), "tree %d, first import %s: %s" % (ti, first, text), {"tree": ti, "first_import": first, "problem": text, "xml": files})
